@@ -6,6 +6,13 @@ Statements are about the executable model `PgVerif.Model.Json` (`encode` = `isot
 them one of the three keys of the format, extra-column names distinct and none of `pressure`/`loading`/`branch`, branch marks 0 or 1.
 The order key `le` used by the branch guess (`split_ads_data`) and the version string are arbitrary throughout.
 Finding S10b appears as the extra hypothesis of `decode_encode_points_ads` and as the refutation `S10b_witness`.
+
+Missing values.  Cells are arbitrary `Scalar`s — `Scalar.nan` (a quantity not recorded at that point: IEEE NaN, the bare token `NaN` in the
+document) and `Scalar.null` (`None`) included — so every theorem below already says "a missing cell comes back missing".  The last
+section ties this to what the reader really does: `decodeFrame` builds the table (absent key ↦ missing cell), rewrites the `branch`
+COLUMN only, and is proved equal to `decode` on every document written for a rectangular table (`decodeFrame_encode`,
+`decodeFrame_encode_points`, `decodeFrame_keeps_cells`); `fill_whole_table_loses_gaps` / `prep_must_keep_cells` state why the
+`fillna` may not be applied to the whole table, and `fill_whole_table_ads_only` why such a defect is invisible without a desorption point.
 -/
 import Mathlib.Tactic
 import PgVerif.Model.Json
@@ -407,5 +414,560 @@ theorem encode_keys_distinct (v : String) (i : Iso) (hi : InDomain i) : ((encode
     subst hab
     apply hfree a ha
     cases payload <;> simp [formatKeys] at hb ⊢ <;> tauto
+
+/-! ## the reader through the data frame: missing cells
+
+`decodeFrame` (Model/Json.lean) follows `isotherm_from_json` step by step: table from the row objects (absent key ↦ missing
+cell), the `branch` COLUMN rewritten by `fillna(0).replace('des', 1).astype(int)`, nothing else touched.  On the documents the
+writer produces for a rectangular table it agrees with `decode`; hence all inverse theorems above hold for it, whatever the
+cells are — `Scalar.nan` (a quantity not recorded at that point) and `Scalar.null` (`None`) included. -/
+
+/-- a rectangular table: every point has the same extra columns `names`, in the same order (what a data frame is) -/
+def Rect (names : List String) (rows : List Row) : Prop := ∀ r ∈ rows, r.extra.map (·.1) = names
+
+private lemma addKeys_append (acc : List String) (o1 o2 : Obj) :
+    addKeys acc (o1 ++ o2) = addKeys (addKeys acc o1) o2 := by
+  induction o1 generalizing acc with
+  | nil => rfl
+  | cons kv t ih => simp only [List.cons_append, addKeys, ih]
+
+private lemma addKeys_known (acc : List String) (o : Obj) (h : ∀ kv ∈ o, kv.1 ∈ acc) : addKeys acc o = acc := by
+  induction o with
+  | nil => rfl
+  | cons kv t ih =>
+    have h1 : acc.contains kv.1 = true := by simpa using h kv (by simp)
+    simp only [addKeys, h1, if_true]
+    exact ih (fun kv hkv => h kv (by simp [hkv]))
+
+private lemma addKeys_fresh (acc : List String) (o : Obj) (hn : (acc ++ o.map (·.1)).Nodup) :
+    addKeys acc o = acc ++ o.map (·.1) := by
+  induction o generalizing acc with
+  | nil => simp [addKeys]
+  | cons kv t ih =>
+    have h1 : acc.contains kv.1 = false := by
+      rw [List.map_cons, List.nodup_append] at hn
+      by_contra hc
+      have hm : kv.1 ∈ acc := by simpa using hc
+      exact hn.2.2 kv.1 hm kv.1 (by simp) rfl
+    simp only [addKeys, h1, Bool.false_eq_true, if_false]
+    rw [ih (acc ++ [kv.1]) (by simpa [List.append_assoc] using hn)]
+    simp [List.append_assoc]
+
+/-- column labels of a rectangular table without / with a desorption mark somewhere -/
+def cols0 (names : List String) : List String := "pressure" :: "loading" :: names
+def cols1 (names : List String) : List String := cols0 names ++ ["branch"]
+
+private lemma encodeRow_keys (r : Row) :
+    (encodeRow r).map (·.1) = cols0 (r.extra.map (·.1)) ++ (if r.branch = 0 then [] else ["branch"]) := by
+  unfold encodeRow cols0
+  split_ifs <;> simp
+
+private lemma cols1_nodup (e : List (String × Scalar)) (h : ExtraOK e) : (cols1 (e.map (·.1))).Nodup := by
+  have hp : "pressure" ∉ e.map (·.1) := by
+    intro hm; obtain ⟨kv, hkv, he⟩ := List.mem_map.1 hm; exact (h.2 kv hkv).1 he
+  have hl : "loading" ∉ e.map (·.1) := by
+    intro hm; obtain ⟨kv, hkv, he⟩ := List.mem_map.1 hm; exact (h.2 kv hkv).2.1 he
+  have hb : "branch" ∉ e.map (·.1) := by
+    intro hm; obtain ⟨kv, hkv, he⟩ := List.mem_map.1 hm; exact (h.2 kv hkv).2.2 he
+  have e1 : ("pressure" : String) ≠ "loading" := by decide
+  have e2 : ("pressure" : String) ≠ "branch" := by decide
+  have e3 : ("loading" : String) ≠ "branch" := by decide
+  unfold cols1 cols0
+  simp only [List.cons_append, List.nodup_cons, List.mem_cons, List.mem_append, List.mem_singleton, not_or]
+  refine ⟨⟨e1, hp, e2, by simp⟩, ⟨hl, e3, by simp⟩, ?_⟩
+  rw [List.nodup_append]
+  refine ⟨h.1, by simp, ?_⟩
+  intro a ha b hb' hab
+  rw [List.mem_singleton] at hb'
+  subst hab; subst hb'
+  exact hb ha
+
+private lemma addKeys_nil_row (r : Row) (h : RowOK r) :
+    addKeys [] (encodeRow r) = cols0 (r.extra.map (·.1)) ++ (if r.branch = 0 then [] else ["branch"]) := by
+  have hn := cols1_nodup r.extra h.1
+  rw [addKeys_fresh [] (encodeRow r), List.nil_append, encodeRow_keys]
+  rw [List.nil_append, encodeRow_keys]
+  split_ifs
+  · rw [List.append_nil]
+    unfold cols1 at hn
+    exact (List.nodup_append.1 hn).1
+  · exact hn
+
+private lemma addKeys_cols0_row (r : Row) (h : RowOK r) :
+    addKeys (cols0 (r.extra.map (·.1))) (encodeRow r) =
+      cols0 (r.extra.map (·.1)) ++ (if r.branch = 0 then [] else ["branch"]) := by
+  have hn := cols1_nodup r.extra h.1
+  have hk : addKeys (cols0 (r.extra.map (·.1))) ([("pressure", r.p), ("loading", r.l)] ++ r.extra) = cols0 (r.extra.map (·.1)) := by
+    apply addKeys_known
+    intro kv hkv
+    unfold cols0
+    simp only [List.cons_append, List.nil_append, List.mem_cons] at hkv
+    rcases hkv with rfl | rfl | hkv
+    · simp
+    · simp
+    · simp only [List.mem_cons]
+      exact Or.inr (Or.inr (List.mem_map.2 ⟨kv, hkv, rfl⟩))
+  unfold encodeRow
+  rw [addKeys_append, hk]
+  split_ifs
+  · simp [addKeys]
+  · have hc : (cols0 (r.extra.map (·.1))).contains "branch" = false := by
+      unfold cols1 at hn
+      by_contra hc
+      have hm : "branch" ∈ cols0 (r.extra.map (·.1)) := by simpa using hc
+      exact (List.nodup_append.1 hn).2.2 _ hm _ (by simp) rfl
+    simp only [addKeys, hc, Bool.false_eq_true, if_false]
+
+private lemma addKeys_cols1_row (r : Row) :
+    addKeys (cols1 (r.extra.map (·.1))) (encodeRow r) = cols1 (r.extra.map (·.1)) := by
+  apply addKeys_known
+  intro kv hkv
+  have : kv.1 ∈ (encodeRow r).map (·.1) := List.mem_map.2 ⟨kv, hkv, rfl⟩
+  rw [encodeRow_keys] at this
+  unfold cols1
+  rw [List.mem_append] at this ⊢
+  rcases this with h | h
+  · exact Or.inl h
+  · split_ifs at h
+    · simp at h
+    · exact Or.inr h
+
+/-- is there a desorption point -/
+def anyDes (rows : List Row) : Bool := rows.any fun r => decide (r.branch = 1)
+
+private lemma frameColumns_cols1 (names : List String) (rows : List Row) (hx : Rect names rows) :
+    frameColumns (cols1 names) (rows.map encodeRow) = cols1 names := by
+  induction rows with
+  | nil => rfl
+  | cons r t ih =>
+    have hr : r.extra.map (·.1) = names := hx r (by simp)
+    rw [List.map_cons, frameColumns, ← hr, addKeys_cols1_row r, hr]
+    exact ih (fun r hr => hx r (by simp [hr]))
+
+private lemma frameColumns_cols0 (names : List String) (rows : List Row) (h : ∀ r ∈ rows, RowOK r) (hx : Rect names rows) :
+    frameColumns (cols0 names) (rows.map encodeRow) = if anyDes rows = true then cols1 names else cols0 names := by
+  induction rows with
+  | nil => rfl
+  | cons r t ih =>
+    have hr : r.extra.map (·.1) = names := hx r (by simp)
+    have hok := h r (by simp)
+    have ht := ih (fun r hr => h r (by simp [hr])) (fun r hr => hx r (by simp [hr]))
+    rw [List.map_cons, frameColumns, ← hr, addKeys_cols0_row r hok, hr]
+    rcases hok.2 with hb | hb
+    · simp only [hb, if_true, List.append_nil, ht, anyDes, List.any_cons]
+      simp
+    · have : anyDes (r :: t) = true := by simp [anyDes, hb]
+      simp only [hb, this, if_true]
+      exact frameColumns_cols1 names t (fun r hr => hx r (by simp [hr]))
+
+private lemma frameColumns_rows (names : List String) (rows : List Row) (h : ∀ r ∈ rows, RowOK r) (hx : Rect names rows)
+    (hne : rows ≠ []) :
+    frameColumns [] (rows.map encodeRow) = if anyDes rows = true then cols1 names else cols0 names := by
+  cases rows with
+  | nil => exact absurd rfl hne
+  | cons r t =>
+    have hr : r.extra.map (·.1) = names := hx r (by simp)
+    have hok := h r (by simp)
+    rw [List.map_cons, frameColumns, addKeys_nil_row r hok, hr]
+    rcases hok.2 with hb | hb
+    · simp only [hb, if_true, List.append_nil, anyDes, List.any_cons]
+      rw [frameColumns_cols0 names t (fun r hr => h r (by simp [hr])) (fun r hr => hx r (by simp [hr]))]
+      simp [anyDes]
+    · have : anyDes (r :: t) = true := by simp [anyDes, hb]
+      simp only [hb, this, if_true]
+      exact frameColumns_cols1 names t (fun r hr => hx r (by simp [hr]))
+
+/-- the cell of the `branch` column that the table has for a point: missing for an adsorption point -/
+def branchCell (r : Row) : Scalar := if r.branch = 0 then .nan else .str "des"
+
+/-- the row of the table for a point (`b`: the table has a `branch` column) -/
+def frameRow (b : Bool) (r : Row) : Obj :=
+  [("pressure", r.p), ("loading", r.l)] ++ r.extra ++ (if b = true then [("branch", branchCell r)] else [])
+
+private lemma find_assoc (e : List (String × Scalar)) (hn : (e.map (·.1)).Nodup) (kv : String × Scalar) (hkv : kv ∈ e) :
+    e.find? (fun x => x.1 == kv.1) = some kv := by
+  induction e with
+  | nil => simp at hkv
+  | cons a t ih =>
+    rw [List.map_cons, List.nodup_cons] at hn
+    rw [List.find?_cons]
+    rcases List.mem_cons.1 hkv with rfl | hm
+    · simp
+    · have hne : (a.1 == kv.1) = false := by
+        have : a.1 ≠ kv.1 := fun he => hn.1 (he ▸ List.mem_map.2 ⟨kv, hm, rfl⟩)
+        simpa using this
+      simp only [hne]
+      exact ih hn.2 hm
+
+private lemma cell_pressure (r : Row) : cell (encodeRow r) "pressure" = r.p := by
+  have e1 : ("pressure" == "pressure") = true := by decide
+  unfold cell encodeRow
+  simp only [List.cons_append, List.find?_cons, e1, Option.map_some, Option.getD_some]
+
+private lemma cell_loading (r : Row) : cell (encodeRow r) "loading" = r.l := by
+  have e1 : ("pressure" == "loading") = false := by decide
+  have e2 : ("loading" == "loading") = true := by decide
+  unfold cell encodeRow
+  simp only [List.cons_append, List.find?_cons, e1, e2, Option.map_some, Option.getD_some]
+
+private lemma cell_branch (r : Row) (h : ExtraOK r.extra) : cell (encodeRow r) "branch" = branchCell r := by
+  have e1 : ("pressure" == "branch") = false := by decide
+  have e2 : ("loading" == "branch") = false := by decide
+  have e3 : ("branch" == "branch") = true := by decide
+  have hx : r.extra.find? (fun x => x.1 == "branch") = none := by
+    rw [List.find?_eq_none]
+    intro kv hkv
+    simpa using (h.2 kv hkv).2.2
+  unfold cell encodeRow branchCell
+  simp only [List.cons_append, List.nil_append, List.find?_cons, List.find?_append, e1, e2, hx, Option.none_or]
+  split_ifs <;> simp [e3]
+
+private lemma cell_extra (r : Row) (h : ExtraOK r.extra) (kv : String × Scalar) (hkv : kv ∈ r.extra) :
+    cell (encodeRow r) kv.1 = kv.2 := by
+  obtain ⟨h1, h2, _⟩ := h.2 kv hkv
+  have e1 : ("pressure" == kv.1) = false := by simpa using fun he : "pressure" = kv.1 => h1 he.symm
+  have e2 : ("loading" == kv.1) = false := by simpa using fun he : "loading" = kv.1 => h2 he.symm
+  unfold cell encodeRow
+  simp only [List.cons_append, List.nil_append, List.find?_cons, List.find?_append, e1, e2, find_assoc r.extra h.1 kv hkv,
+    Option.some_or, Option.map_some, Option.getD_some]
+
+private lemma frame_row (r : Row) (h : RowOK r) (b : Bool) :
+    (if b = true then cols1 (r.extra.map (·.1)) else cols0 (r.extra.map (·.1))).map (fun k => (k, cell (encodeRow r) k))
+      = frameRow b r := by
+  have hex : (r.extra.map (·.1)).map (fun k => (k, cell (encodeRow r) k)) = r.extra := by
+    rw [List.map_map]
+    conv_rhs => rw [← List.map_id r.extra]
+    apply List.map_congr_left
+    intro kv hkv
+    simp only [Function.comp, id, cell_extra r h.1 kv hkv]
+  unfold frameRow
+  cases b
+  · simp only [Bool.false_eq_true, if_false, cols0, List.map_cons, cell_pressure, cell_loading, hex, List.append_nil,
+      List.cons_append, List.nil_append]
+  · simp only [if_true, cols1, cols0, List.map_cons, List.map_append, List.map_nil, cell_pressure, cell_loading, hex,
+      cell_branch r h.1, List.cons_append, List.nil_append]
+
+private lemma frame_rows (names : List String) (rows : List Row) (h : ∀ r ∈ rows, RowOK r) (hx : Rect names rows)
+    (hne : rows ≠ []) : frame (rows.map encodeRow) = rows.map (frameRow (anyDes rows)) := by
+  unfold frame
+  rw [frameColumns_rows names rows h hx hne, List.map_map]
+  apply List.map_congr_left
+  intro r hr
+  have := frame_row r (h r hr) (anyDes rows)
+  rw [hx r hr] at this
+  simpa [Function.comp] using this
+
+private lemma rowOfFrame_frameRow (r : Row) (h : ExtraOK r.extra) (b : Bool) (m : Nat) :
+    rowOfFrame (frameRow b r) m = ⟨r.p, r.l, m, r.extra⟩ := by
+  have hf : r.extra.filter (fun kv => isDataKey kv.1) = r.extra := by
+    rw [List.filter_eq_self]
+    intro kv hkv
+    obtain ⟨h1, h2, h3⟩ := h.2 kv hkv
+    simp [isDataKey, h1, h2, h3]
+  have e1 : ("pressure" == "pressure") = true := by decide
+  have e2 : ("pressure" == "loading") = false := by decide
+  have e3 : ("loading" == "loading") = true := by decide
+  have d1 : isDataKey "pressure" = false := by decide
+  have d2 : isDataKey "loading" = false := by decide
+  have d3 : isDataKey "branch" = false := by decide
+  unfold rowOfFrame frameRow cell
+  cases b <;>
+  simp only [List.cons_append, List.nil_append, List.find?_cons, List.filter_cons, List.filter_append, List.filter_nil, hf, e1, e2, e3,
+    d1, d2, d3, Bool.false_eq_true, if_false, if_true, Option.map_some, Option.getD_some, List.append_nil]
+
+private lemma cell_frameRow_pressure (r : Row) (b : Bool) : cell (frameRow b r) "pressure" = r.p := by
+  have e1 : ("pressure" == "pressure") = true := by decide
+  unfold cell frameRow
+  simp only [List.cons_append, List.find?_cons, e1, Option.map_some, Option.getD_some]
+
+private lemma cell_frameRow_branch (r : Row) (h : RowOK r) : branchMark (cell (frameRow true r) "branch") = some r.branch := by
+  have e1 : ("pressure" == "branch") = false := by decide
+  have e2 : ("loading" == "branch") = false := by decide
+  have e3 : ("branch" == "branch") = true := by decide
+  have e4 : ("des" == "des") = true := by decide
+  have hx : r.extra.find? (fun x => x.1 == "branch") = none := by
+    rw [List.find?_eq_none]
+    intro kv hkv
+    simpa using (h.1.2 kv hkv).2.2
+  unfold cell frameRow branchCell
+  simp only [List.cons_append, List.nil_append, List.find?_cons, List.find?_append, e1, e2, e3, hx, Option.none_or, if_true,
+    Option.map_some, Option.getD_some]
+  rcases h.2 with hb | hb <;> simp [hb, branchMark, e4]
+
+private lemma marks_frame (rows : List Row) (h : ∀ r ∈ rows, RowOK r) :
+    (rows.map (frameRow true)).mapM (fun r => branchMark (cell r "branch")) = some (rows.map (·.branch)) := by
+  induction rows with
+  | nil => rfl
+  | cons r t ih =>
+    rw [List.map_cons, List.mapM_cons, cell_frameRow_branch r (h r (by simp)), ih (fun r hr => h r (by simp [hr]))]
+    rfl
+
+private lemma zip_frame (rows : List Row) (b : Bool) (ms : List Nat) (h : ∀ r ∈ rows, RowOK r) :
+    List.zipWith rowOfFrame (rows.map (frameRow b)) ms = List.zipWith (fun r m => (⟨r.p, r.l, m, r.extra⟩ : Row)) rows ms := by
+  induction rows generalizing ms with
+  | nil => rfl
+  | cons r t ih =>
+    cases ms with
+    | nil => rfl
+    | cons m ms =>
+      rw [List.map_cons, List.zipWith_cons_cons, List.zipWith_cons_cons, rowOfFrame_frameRow r (h r (by simp)).1,
+        ih ms (fun r hr => h r (by simp [hr]))]
+
+private lemma cols_contains (names : List String) (hb : "branch" ∉ names) (b : Bool) :
+    ((if b = true then cols1 names else cols0 names).contains "pressure" = true) ∧
+    ((if b = true then cols1 names else cols0 names).contains "loading" = true) ∧
+    ((if b = true then cols1 names else cols0 names).contains "branch" = b) := by
+  have e2 : ("pressure" : String) ≠ "branch" := by decide
+  have e3 : ("loading" : String) ≠ "branch" := by decide
+  cases b
+  · simp [cols0, hb, e2.symm, e3.symm]
+  · simp [cols1, cols0]
+
+/-- what the reader-through-the-table makes of the document written for a non-empty rectangular table -/
+private lemma decodeFrame_points_aux (le : Scalar → Scalar → Bool) (v : String) (core : Dict) (rows : List Row)
+    (names : List String) (hd : ∀ kv ∈ core, kv.1 ∉ formatKeys) (hr : ∀ r ∈ rows, RowOK r) (hx : Rect names rows)
+    (hne : rows ≠ []) :
+    decodeFrame le (encode v ⟨core, .points rows⟩) =
+      some ⟨core, .points (List.zipWith (fun r m => (⟨r.p, r.l, m, r.extra⟩ : Row)) rows
+        (if anyDes rows = true then rows.map (·.branch) else splitAds le (rows.map (·.p))))⟩ := by
+  have hk1 : ∀ kv ∈ core, kv.1 ≠ "isotherm_data" := fun kv hkv e => hd kv hkv (by simp [e, formatKeys])
+  have hk2 : ∀ kv ∈ core, kv.1 ≠ "isotherm_model" := fun kv hkv e => hd kv hkv (by simp [e, formatKeys])
+  have l1 : ∀ x, lookup [("file_version", DVal.version v), ("isotherm_data", DVal.data x)] "isotherm_data" = some (.data x) :=
+    fun _ => rfl
+  have c1 : formatKeys.contains "file_version" = true := by decide
+  have c2 : formatKeys.contains "isotherm_data" = true := by decide
+  have he : rows.isEmpty = false := by simpa using hne
+  have hbn : "branch" ∉ names := by
+    obtain ⟨r, hrm⟩ := List.exists_mem_of_ne_nil rows hne
+    rw [← hx r hrm]
+    intro hm
+    obtain ⟨kv, hkv, hke⟩ := List.mem_map.1 hm
+    exact ((hr r hrm).1.2 kv hkv).2.2 hke
+  obtain ⟨cp, cl, cb⟩ := cols_contains names hbn (anyDes rows)
+  have hp : (rows.map (frameRow (anyDes rows))).map (fun r => cell r "pressure") = rows.map (·.p) := by
+    rw [List.map_map]
+    apply List.map_congr_left
+    intro r _
+    simp only [Function.comp, cell_frameRow_pressure]
+  unfold decodeFrame decodeFrameWith encode
+  simp only [List.filterMap_append, List.append_assoc, lookup_core _ _ _ hk1, lookup_core _ _ _ hk2,
+    List.cons_append, List.nil_append]
+  rw [core_filterMap _ _ _ hd]
+  · simp only [l1, List.filterMap_cons, List.filterMap_nil, c1, c2, if_true, List.append_nil, List.isEmpty_map, he,
+      Bool.false_eq_true, if_false, frameColumns_rows names rows hr hx hne, frame_rows names rows hr hx hne, cp, cl, cb,
+      Bool.and_self, Bool.not_true, List.map_id, ite_self, hp]
+    cases hdes : anyDes rows
+    · simp only [Bool.false_eq_true, if_false, Option.map_some, zip_frame rows false _ hr]
+    · simp only [if_true, marks_frame rows hr, Option.map_some, zip_frame rows true _ hr]
+  · intro k v hk
+    simp only [F_core k v hk, Bool.false_eq_true, if_false]
+
+private lemma decode_points_value (le : Scalar → Scalar → Bool) (v : String) (core : Dict) (rows : List Row)
+    (hd : ∀ kv ∈ core, kv.1 ∉ formatKeys) (hr : ∀ r ∈ rows, RowOK r) (hne : rows ≠ []) :
+    decode le (encode v ⟨core, .points rows⟩) =
+      some ⟨core, .points (List.zipWith (fun r m => (⟨r.p, r.l, m, r.extra⟩ : Row)) rows
+        (if anyDes rows = true then rows.map (·.branch) else splitAds le (rows.map (·.p))))⟩ := by
+  have he : rows.isEmpty = false := by simpa using hne
+  rw [decode_points_aux le v core rows hd hr]
+  simp only [he, Bool.false_eq_true, if_false, zip_marks rows _ hr, mapM_id_some, Option.map_some, anyDes]
+  rfl
+
+private lemma decodeFrame_nodata (le : Scalar → Scalar → Bool) (d : Doc)
+    (h : lookup d "isotherm_data" = none ∨ lookup d "isotherm_data" = some (.data [])) : decodeFrame le d = decode le d := by
+  unfold decodeFrame decodeFrameWith decode
+  rcases h with h | h
+  · rw [h]
+    cases lookup d "isotherm_model" with
+    | none => rfl
+    | some x => cases x <;> rfl
+  · rw [h]
+    rfl
+
+/-- **the reader through the table is the reader of the theorems above** on every document the writer produces for a
+rectangular table (all three classes, any cells — missing ones included) -/
+theorem decodeFrame_encode (le : Scalar → Scalar → Bool) (v : String) (i : Iso) (hi : InDomain i)
+    (hx : ∀ rows, i.payload = .points rows → ∃ names, Rect names rows) :
+    decodeFrame le (encode v i) = decode le (encode v i) := by
+  obtain ⟨core, payload⟩ := i
+  have hd : ∀ kv ∈ core, kv.1 ∉ formatKeys := hi.keys_free
+  have hk1 : ∀ kv ∈ core, kv.1 ≠ "isotherm_data" := fun kv hkv e => hd kv hkv (by simp [e, formatKeys])
+  cases payload with
+  | none =>
+    apply decodeFrame_nodata
+    left
+    unfold encode
+    simp only [List.append_assoc, lookup_core _ _ _ hk1]
+    rfl
+  | model m =>
+    apply decodeFrame_nodata
+    left
+    unfold encode
+    simp only [List.append_assoc, lookup_core _ _ _ hk1]
+    rfl
+  | points rows =>
+    by_cases hne : rows = []
+    · subst hne
+      apply decodeFrame_nodata
+      right
+      unfold encode
+      simp only [List.append_assoc, lookup_core _ _ _ hk1]
+      rfl
+    · obtain ⟨names, hrect⟩ := hx rows rfl
+      have hr : ∀ r ∈ rows, RowOK r := hi.payload_ok
+      rw [decodeFrame_points_aux le v core rows names hd hr hrect hne, decode_points_value le v core rows hd hr hne]
+
+/-- **data with gaps round-trips**: measured points (non-empty rectangular table, ANY cells: `Scalar.nan` where a quantity was not
+recorded, `Scalar.null` for `None`), read back through the table, are recovered exactly — under the same hypothesis on the marks as
+`decode_encode_points` (a desorption point exists, or the guess from the pressures marks every point as adsorption) -/
+theorem decodeFrame_encode_points (le : Scalar → Scalar → Bool) (v : String) (i : Iso) (hi : InDomain i)
+    (rows : List Row) (names : List String) (hp : i.payload = .points rows) (hx : Rect names rows) (hne : rows ≠ [])
+    (h : rows.any (fun r => decide (r.branch = 1)) = true ∨
+         splitAds le (rows.map (·.p)) = List.replicate rows.length 0) : decodeFrame le (encode v i) = some i := by
+  rw [decodeFrame_encode le v i hi (fun rows' hp' => by rw [hp] at hp'; cases hp'; exact ⟨names, hx⟩)]
+  exact decode_encode_points le v i hi rows hp hne h
+
+/-- metadata-only and model isotherms through the same reader -/
+theorem decodeFrame_encode_none_model (le : Scalar → Scalar → Bool) (v : String) (i : Iso) (hi : InDomain i)
+    (hp : i.payload = .none ∨ ∃ m, i.payload = .model m) : decodeFrame le (encode v i) = some i := by
+  rw [decodeFrame_encode le v i hi (fun rows' hp' => by rcases hp with h | ⟨m, h⟩ <;> rw [h] at hp' <;> cases hp')]
+  rcases hp with h | ⟨m, h⟩
+  · exact decode_encode_none le v i hi h
+  · exact decode_encode_model le v i hi m h
+
+/-- **every data column comes back, unconditionally**: whatever the branch guess does to the marks (finding S10b), the reader
+returns the same number of points with the same pressure, loading and extra cells — a missing cell is still missing, a recorded
+one still has its value.  (Only the marks need the hypothesis of `decodeFrame_encode_points`.) -/
+theorem decodeFrame_keeps_cells (le : Scalar → Scalar → Bool) (v : String) (core : Dict) (rows : List Row) (names : List String)
+    (hi : InDomain ⟨core, .points rows⟩) (hx : Rect names rows) (hne : rows ≠ []) :
+    ∃ rows', decodeFrame le (encode v ⟨core, .points rows⟩) = some ⟨core, .points rows'⟩ ∧
+      rows'.map (fun r => (r.p, r.l, r.extra)) = rows.map (fun r => (r.p, r.l, r.extra)) := by
+  have hr : ∀ r ∈ rows, RowOK r := hi.payload_ok
+  refine ⟨_, decodeFrame_points_aux le v core rows names hi.keys_free hr hx hne, ?_⟩
+  have hlen : (if anyDes rows = true then rows.map (·.branch) else splitAds le (rows.map (·.p))).length = rows.length := by
+    split_ifs
+    · simp
+    · rw [splitAds_length, List.length_map]
+  generalize (if anyDes rows = true then rows.map (·.branch) else splitAds le (rows.map (·.p))) = ms at hlen
+  clear hr hx hne hi
+  induction rows generalizing ms with
+  | nil => simp
+  | cons r t ih =>
+    cases ms with
+    | nil => simp at hlen
+    | cons m ms =>
+      rw [List.zipWith_cons_cons, List.map_cons, List.map_cons, ih ms (by simpa using hlen)]
+
+/-! ### concrete tables with gaps, and why the `fillna` must stay on the `branch` column -/
+
+/-- five points, two of them desorption; the enthalpy was recorded at every second point only, one loading and one pressure are
+missing, the remark column has a `None` -/
+def gaps : Iso :=
+  ⟨[("material", .scalar (.str "m")), ("t_act", .scalar .null)],
+   .points [⟨.int 1, .int 10, 0, [("enthalpy", .int 15), ("remark", .str "ok")]⟩,
+            ⟨.int 2, .nan, 0, [("enthalpy", .nan), ("remark", .null)]⟩,
+            ⟨.int 3, .int 30, 0, [("enthalpy", .int 12), ("remark", .str "des")]⟩,
+            ⟨.nan, .int 25, 1, [("enthalpy", .nan), ("remark", .str "x")]⟩,
+            ⟨.int 1, .int 15, 1, [("enthalpy", .int 11), ("remark", .null)]⟩]⟩
+
+/-- the same measured values with all points marked adsorption (no `branch` key anywhere in the document) -/
+def gapsAds : Iso :=
+  ⟨[("material", .scalar (.str "m"))],
+   .points [⟨.int 1, .int 10, 0, [("enthalpy", .int 15)]⟩, ⟨.nan, .nan, 0, [("enthalpy", .nan)]⟩,
+            ⟨.int 3, .int 30, 0, [("enthalpy", .nan)]⟩]⟩
+
+/-- order key of the witnesses with the missing pressure below every number (`idxmax` skips missing values) -/
+def leGap : Scalar → Scalar → Bool
+  | .nan, _ => true
+  | _, .nan => false
+  | a, b => leInt a b
+
+theorem gaps_inDomain : InDomain gaps := by
+  refine ⟨by decide, by decide, ?_⟩
+  intro r hr
+  simp only [gaps, List.mem_cons, List.not_mem_nil, or_false] at hr
+  rcases hr with rfl | rfl | rfl | rfl | rfl <;> exact ⟨⟨by decide, by decide⟩, by decide⟩
+
+theorem gaps_rect : ∀ rows, gaps.payload = .points rows → Rect ["enthalpy", "remark"] rows := by
+  intro rows h
+  cases h
+  intro r hr
+  simp only [List.mem_cons, List.not_mem_nil, or_false] at hr
+  rcases hr with rfl | rfl | rfl | rfl | rfl <;> rfl
+
+/-- non-vacuity of `decodeFrame_encode_points`: an in-domain table with every kind of gap, recovered cell by cell
+(the hypotheses hold: `gaps_inDomain`, `gaps_rect`, a desorption point exists) -/
+theorem gaps_roundtrip : decodeFrame leGap (encode "3.0" gaps) = some gaps := by decide
+
+theorem gapsAds_roundtrip : decodeFrame leGap (encode "3.0" gapsAds) = some gapsAds := by decide
+
+/-- `fillna(0)` on a cell -/
+def fill0 : Scalar → Scalar
+  | .nan => .int 0
+  | .null => .int 0
+  | s => s
+
+/-- a reader that fills the missing cells of the WHOLE table (not only of the `branch` column) when the table has a `branch` column -/
+def decodeFillAll (le : Scalar → Scalar → Bool) (d : Doc) : Option Iso :=
+  decodeFrameWith (fun r => r.map fun kv => (kv.1, fill0 kv.2)) le d
+
+/-- … is not an inverse of the writer: the gaps of `gaps` come back as zeros -/
+theorem fill_whole_table_loses_gaps : decodeFillAll leGap (encode "3.0" gaps) ≠ some gaps := by decide
+
+theorem fill_whole_table_value : decodeFillAll leGap (encode "3.0" gaps) =
+    some ⟨[("material", .scalar (.str "m")), ("t_act", .scalar .null)],
+      .points [⟨.int 1, .int 10, 0, [("enthalpy", .int 15), ("remark", .str "ok")]⟩,
+               ⟨.int 2, .int 0, 0, [("enthalpy", .int 0), ("remark", .int 0)]⟩,
+               ⟨.int 3, .int 30, 0, [("enthalpy", .int 12), ("remark", .str "des")]⟩,
+               ⟨.int 0, .int 25, 1, [("enthalpy", .int 0), ("remark", .str "x")]⟩,
+               ⟨.int 1, .int 15, 1, [("enthalpy", .int 11), ("remark", .int 0)]⟩]⟩ := by decide
+
+/-- … while on a table WITHOUT a desorption point that reader happens to agree with the real one (no `branch` column: the other
+code path) — which is why such a defect is invisible on adsorption-only data -/
+theorem fill_whole_table_ads_only : decodeFillAll leGap (encode "3.0" gapsAds) = some gapsAds := by decide
+
+/-- in general: a reader that changes a cell of some row of a table with a desorption point is not an inverse.  Stated for the
+row preparation `prep` of `decodeFrameWith`: if the reader with `prep` recovers every in-domain rectangular table that has a
+desorption point, then `prep` leaves the data cells of the rows of such tables alone -/
+theorem prep_must_keep_cells (prep : Obj → Obj) (le : Scalar → Scalar → Bool) (v : String) (core : Dict) (rows : List Row)
+    (names : List String) (hi : InDomain ⟨core, .points rows⟩) (hx : Rect names rows) (hne : rows ≠ [])
+    (hdes : anyDes rows = true)
+    (hrt : decodeFrameWith prep le (encode v ⟨core, .points rows⟩) = some ⟨core, .points rows⟩) :
+    ∃ ms, List.zipWith rowOfFrame ((rows.map (frameRow true)).map prep) ms = rows := by
+  have hr : ∀ r ∈ rows, RowOK r := hi.payload_ok
+  have hd := hi.keys_free
+  simp only at hd
+  have hk1 : ∀ kv ∈ core, kv.1 ≠ "isotherm_data" := fun kv hkv e => hd kv hkv (by simp [e, formatKeys])
+  have hk2 : ∀ kv ∈ core, kv.1 ≠ "isotherm_model" := fun kv hkv e => hd kv hkv (by simp [e, formatKeys])
+  have l1 : ∀ x, lookup [("file_version", DVal.version v), ("isotherm_data", DVal.data x)] "isotherm_data" = some (.data x) :=
+    fun _ => rfl
+  have c1 : formatKeys.contains "file_version" = true := by decide
+  have c2 : formatKeys.contains "isotherm_data" = true := by decide
+  have he : rows.isEmpty = false := by simpa using hne
+  have hbn : "branch" ∉ names := by
+    obtain ⟨r, hrm⟩ := List.exists_mem_of_ne_nil rows hne
+    rw [← hx r hrm]
+    intro hm
+    obtain ⟨kv, hkv, hke⟩ := List.mem_map.1 hm
+    exact ((hr r hrm).1.2 kv hkv).2.2 hke
+  obtain ⟨cp, cl, cb⟩ := cols_contains names hbn (anyDes rows)
+  rw [hdes] at cp cl cb
+  simp only [if_true] at cp cl cb
+  unfold decodeFrameWith encode at hrt
+  simp only [List.filterMap_append, List.append_assoc, lookup_core _ _ _ hk1, lookup_core _ _ _ hk2,
+    List.cons_append, List.nil_append] at hrt
+  rw [core_filterMap _ _ _ hd] at hrt
+  · simp only [l1, List.filterMap_cons, List.filterMap_nil, c1, c2, if_true, List.append_nil, List.isEmpty_map, he,
+      Bool.false_eq_true, if_false, frameColumns_rows names rows hr hx hne, frame_rows names rows hr hx hne, cp, cl, cb,
+      Bool.and_self, Bool.not_true, hdes] at hrt
+    cases hm : List.mapM (fun r => branchMark (cell r "branch")) (List.map prep (List.map (frameRow true) rows)) with
+    | none =>
+      rw [hm] at hrt
+      simp at hrt
+    | some ms =>
+      refine ⟨ms, ?_⟩
+      rw [hm] at hrt
+      simpa using hrt
+  · intro k v hk
+    simp only [F_core k v hk, Bool.false_eq_true, if_false]
 
 end PgVerif.C06
